@@ -16,9 +16,8 @@ def one(sid, all_props):
     scratch = f"/tmp/espada-seed-{sid}"
     shutil.rmtree(scratch, ignore_errors=True)
     os.makedirs(scratch)
-    for n in ("src", "examples", "benches", "Cargo.toml", "Cargo.lock"):
-        s, t = os.path.join("/repo", n), os.path.join(scratch, n)
-        (shutil.copytree if os.path.isdir(s) else shutil.copy)(s, t)
+    # the corpus patches are relative to the committed tree: take HEAD, not a working tree another tool may have patched
+    subprocess.run("git -C /repo archive HEAD src examples benches Cargo.toml Cargo.lock | tar x -C " + scratch, shell=True, check=True)
     base = os.environ.get("SEED_BASE")
     if base:
         # a seed written against an already refactored tree: the behaviour-preserving patch benign/<base> goes on first
